@@ -1,6 +1,6 @@
 // ======================================================================================
 // C02 / C03 -- point-location and intersects kernels against the point-set oracle.
-// Scalar i32 on the lattice |c| <= LAT (so i32 products fit: the precondition of C03 for
+// Scalar i16 on the lattice |c| <= LAT (so i16 products fit: the precondition of C03 for
 // integer types); loop-free harnesses are COMPLETE for that lattice.
 // ======================================================================================
 #[cfg(kani)]
@@ -14,10 +14,10 @@ macro_rules! k_harness {
 }
 
 #[cfg(kani)]
-pub(crate) const LAT: i32 = 6;
+pub(crate) const LAT: i16 = 6;
 
 #[cfg(kani)]
-pub(crate) fn sp(c: Coord<i32>) -> spec::P { spec::P { x: c.x, y: c.y } }
+pub(crate) fn sp(c: Coord<i16>) -> spec::P { spec::P { x: c.x, y: c.y } }
 
 #[cfg(kani)]
 pub(crate) fn pos_eq(a: CoordPos, b: spec::Pos) -> bool {
@@ -30,9 +30,9 @@ pub(crate) fn pos_eq(a: CoordPos, b: spec::Pos) -> bool {
 // ---- kernel: SimpleKernel::orient2d at i32 is the exact sign when products fit (C03 clause 2)
 #[cfg(kani)]
 #[kani::proof]
-fn c03_k_simple_kernel_i32() {
-    let (p, q, r) = (lat_coord_i32(1 << 14), lat_coord_i32(1 << 14), lat_coord_i32(1 << 14));
-    let o = <i32 as GeoNum>::Ker::orient2d(p, q, r);
+fn c03_k_simple_kernel_i16() {
+    let (p, q, r) = (lat_coord_i16(64), lat_coord_i16(64), lat_coord_i16(64));
+    let o = <i16 as GeoNum>::Ker::orient2d(p, q, r);
     let e = spec::orient(sp(p), sp(q), sp(r));
     assert!(match o { Orientation::CounterClockwise => e == 1, Orientation::Clockwise => e == -1, Orientation::Collinear => e == 0 });
     kani::cover!(e == 0 && p != q && q != r, "collinear distinct");
@@ -42,7 +42,7 @@ fn c03_k_simple_kernel_i32() {
 #[cfg(kani)]
 #[kani::proof]
 fn c02_k_line_coord() {
-    let (a, b, p) = (lat_coord_i32(LAT), lat_coord_i32(LAT), lat_coord_i32(LAT));
+    let (a, b, p) = (lat_coord_i16(LAT), lat_coord_i16(LAT), lat_coord_i16(LAT));
     let l = Line::new(a, b);
     let on = spec::on_segment(sp(p), sp(a), sp(b));
     assert!(l.intersects(&p) == on);
@@ -58,7 +58,7 @@ fn c02_k_line_coord() {
 #[cfg(kani)]
 #[kani::proof]
 fn c02_k_rect_coord() {
-    let (a, b, p) = (lat_coord_i32(LAT), lat_coord_i32(LAT), lat_coord_i32(LAT));
+    let (a, b, p) = (lat_coord_i16(LAT), lat_coord_i16(LAT), lat_coord_i16(LAT));
     let r = Rect::new(a, b);
     let want = spec::rect_pos(sp(p), sp(r.min()), sp(r.max()));
     assert!(r.intersects(&p) == (want != spec::Pos::Outside));
@@ -71,7 +71,8 @@ fn c02_k_rect_coord() {
 #[cfg(kani)]
 #[kani::proof]
 fn c02_k_tri_intersects_coord() {
-    let (a, b, c, p) = (lat_coord_i32(LAT), lat_coord_i32(LAT), lat_coord_i32(LAT), lat_coord_i32(LAT));
+    let (a, b, c, p) = (lat_coord_i16(LAT), lat_coord_i16(LAT), lat_coord_i16(LAT), lat_coord_i16(LAT));
+    kani::assume(spec::orient(sp(a), sp(b), sp(c)) != 0);   // a collinear "triangle" is not a valid geometry
     let t = Triangle(a, b, c);
     let want = spec::tri_pos(sp(p), sp(a), sp(b), sp(c));
     assert!(t.intersects(&p) == (want != spec::Pos::Outside));
@@ -81,7 +82,7 @@ fn c02_k_tri_intersects_coord() {
 #[cfg(kani)]
 #[kani::proof]
 fn c02_k_tri_pos() {
-    let (a, b, c, p) = (lat_coord_i32(LAT), lat_coord_i32(LAT), lat_coord_i32(LAT), lat_coord_i32(LAT));
+    let (a, b, c, p) = (lat_coord_i16(LAT), lat_coord_i16(LAT), lat_coord_i16(LAT), lat_coord_i16(LAT));
     // non-degenerate triangles (a degenerate triangle has no interior and is not a valid geometry)
     kani::assume(spec::orient(sp(a), sp(b), sp(c)) != 0);
     let t = Triangle(a, b, c);
@@ -95,7 +96,7 @@ fn c02_k_tri_pos() {
 #[cfg(kani)]
 #[kani::proof]
 fn c02_k_line_line() {
-    let (a, b, c, d) = (lat_coord_i32(LAT), lat_coord_i32(LAT), lat_coord_i32(LAT), lat_coord_i32(LAT));
+    let (a, b, c, d) = (lat_coord_i16(LAT), lat_coord_i16(LAT), lat_coord_i16(LAT), lat_coord_i16(LAT));
     let (l1, l2) = (Line::new(a, b), Line::new(c, d));
     let want = spec::seg_meet(sp(a), sp(b), sp(c), sp(d));
     assert!(l1.intersects(&l2) == want);
@@ -106,8 +107,8 @@ fn c02_k_line_line() {
 #[cfg(kani)]
 #[kani::proof]
 fn c02_k_rect_rect() {
-    let r1 = Rect::new(lat_coord_i32(LAT), lat_coord_i32(LAT));
-    let r2 = Rect::new(lat_coord_i32(LAT), lat_coord_i32(LAT));
+    let r1 = Rect::new(lat_coord_i16(LAT), lat_coord_i16(LAT));
+    let r2 = Rect::new(lat_coord_i16(LAT), lat_coord_i16(LAT));
     let want = r1.min().x <= r2.max().x && r2.min().x <= r1.max().x && r1.min().y <= r2.max().y && r2.min().y <= r1.max().y;
     assert!(r1.intersects(&r2) == want);
     assert!(r2.intersects(&r1) == want);
@@ -116,8 +117,8 @@ fn c02_k_rect_rect() {
 #[cfg(kani)]
 #[kani::proof]
 fn c02_k_rect_line() {
-    let r = Rect::new(lat_coord_i32(LAT), lat_coord_i32(LAT));
-    let (a, b) = (lat_coord_i32(LAT), lat_coord_i32(LAT));
+    let r = Rect::new(lat_coord_i16(LAT), lat_coord_i16(LAT));
+    let (a, b) = (lat_coord_i16(LAT), lat_coord_i16(LAT));
     let l = Line::new(a, b);
     let (mn, mx) = (sp(r.min()), sp(r.max()));
     let c1 = spec::P { x: mx.x, y: mn.y };
@@ -133,9 +134,9 @@ fn c02_k_rect_line() {
 // ---- ring walk: K twin of Verus obligation C02.V.coord_pos_relative_to_ring (bounded: ring size n)
 #[cfg(kani)]
 fn body_ring_pos(n: usize) {
-    let mut ring = lat_ring_i32(n, LAT);
+    let mut ring = lat_ring_i16(n, LAT);
     if n > 0 { let f = ring.0[0]; ring.0.push(f); }     // closed ring of n+1 coordinates
-    let p = lat_coord_i32(LAT);
+    let p = lat_coord_i16(LAT);
     let mut pts = [spec::P { x: 0, y: 0 }; 8];
     let mut i = 0;
     while i < ring.0.len() { pts[i] = sp(ring.0[i]); i += 1; }
@@ -146,3 +147,183 @@ fn body_ring_pos(n: usize) {
 k_harness!(c02_k_ring_pos_1, body_ring_pos(1));
 k_harness!(c02_k_ring_pos_3, body_ring_pos(3));
 k_harness!(c02_k_ring_pos_4, body_ring_pos(4));
+
+// ---- Contains for the loop-free kernels (complete on lattice) ---------------------------------
+#[cfg(kani)]
+#[kani::proof]
+fn c02_k_contains_line_coord() {
+    let (a, b, p) = (lat_coord_i16(LAT), lat_coord_i16(LAT), lat_coord_i16(LAT));
+    let l = Line::new(a, b);
+    // interior of a segment = the segment minus its end points; a degenerate line is a point (all interior)
+    let want = if a == b { p == a } else { spec::in_segment_interior(sp(p), sp(a), sp(b)) };
+    assert!(l.contains(&p) == want);
+    assert!(l.contains(&Point(p)) == want);
+    assert!(p.is_within(&l) == want);
+    assert!(Point(p).is_within(&l) == want);
+}
+
+#[cfg(kani)]
+#[kani::proof]
+fn c02_k_contains_line_line() {
+    let (a, b, c, d) = (lat_coord_i16(LAT), lat_coord_i16(LAT), lat_coord_i16(LAT), lat_coord_i16(LAT));
+    let (l1, l2) = (Line::new(a, b), Line::new(c, d));
+    // T*****FF*: every point of l2 on l1, and the interiors meet
+    let want = if c == d {
+        if a == b { c == a } else { spec::in_segment_interior(sp(c), sp(a), sp(b)) }
+    } else {
+        spec::on_segment(sp(c), sp(a), sp(b)) && spec::on_segment(sp(d), sp(a), sp(b))
+    };
+    assert!(l1.contains(&l2) == want);
+    assert!(l2.is_within(&l1) == want);
+    kani::cover!(want && c != d && c != a && d != b, "proper sub-segment");
+}
+
+#[cfg(kani)]
+#[kani::proof]
+fn c02_k_contains_rect() {
+    let (a, b, p) = (lat_coord_i16(LAT), lat_coord_i16(LAT), lat_coord_i16(LAT));
+    let r = Rect::new(a, b);
+    let pos = spec::rect_pos(sp(p), sp(r.min()), sp(r.max()));
+    let nondegenerate = r.min().x < r.max().x && r.min().y < r.max().y;
+    if nondegenerate {
+        assert!(r.contains(&p) == (pos == spec::Pos::Inside));
+        assert!(p.is_within(&r) == (pos == spec::Pos::Inside));
+    }
+    let r2 = Rect::new(lat_coord_i16(LAT), lat_coord_i16(LAT));
+    if nondegenerate && r2.min().x < r2.max().x && r2.min().y < r2.max().y {
+        let inside = r.min().x <= r2.min().x && r2.max().x <= r.max().x && r.min().y <= r2.min().y && r2.max().y <= r.max().y;
+        assert!(r.contains(&r2) == inside);
+        assert!(r2.is_within(&r) == inside);
+    }
+}
+
+#[cfg(kani)]
+#[kani::proof]
+fn c02_k_contains_tri_coord() {
+    let (a, b, c, p) = (lat_coord_i16(LAT), lat_coord_i16(LAT), lat_coord_i16(LAT), lat_coord_i16(LAT));
+    kani::assume(spec::orient(sp(a), sp(b), sp(c)) != 0);
+    let t = Triangle(a, b, c);
+    let want = spec::tri_pos(sp(p), sp(a), sp(b), sp(c)) == spec::Pos::Inside;
+    assert!(t.contains(&p) == want);
+    assert!(t.contains(&Point(p)) == want);
+}
+
+/// the accumulator contract of `calculate_coordinate_position` (the comment on the trait): an impl may
+/// only SET is_inside and only ADD to boundary_count -- it must not reset what other members found
+#[cfg(kani)]
+#[kani::proof]
+fn c02_k_tri_accumulates() {
+    let (a, b, c, p) = (lat_coord_i16(LAT), lat_coord_i16(LAT), lat_coord_i16(LAT), lat_coord_i16(LAT));
+    kani::assume(spec::orient(sp(a), sp(b), sp(c)) != 0);
+    let t = Triangle(a, b, c);
+    let inside0: bool = kani::any();
+    let count0: usize = kani::any();
+    kani::assume(count0 < 10);
+    let (mut inside, mut count) = (inside0, count0);
+    t.calculate_coordinate_position(&p, &mut inside, &mut count);
+    let want = spec::tri_pos(sp(p), sp(a), sp(b), sp(c));
+    assert!(inside == (inside0 || want == spec::Pos::Inside));
+    assert!(count == count0 + if want == spec::Pos::OnBoundary { 1 } else { 0 });
+}
+
+// ---- LineString / Polygon / Multi* position (bounded: concrete sizes) ---------------------------
+#[cfg(kani)]
+fn to_pts(ls: &LineString<i16>) -> ([spec::P; 8], usize) {
+    let mut pts = [spec::P { x: 0, y: 0 }; 8];
+    let mut i = 0;
+    while i < ls.0.len() { pts[i] = sp(ls.0[i]); i += 1; }
+    (pts, ls.0.len())
+}
+
+#[cfg(kani)]
+fn body_linestring_pos(n: usize, close: bool) {
+    let mut ls = lat_ring_i16(n, LAT);
+    if close { let f = ls.0[0]; ls.0.push(f); }
+    let p = lat_coord_i16(LAT);
+    let (pts, len) = to_pts(&ls);
+    let want = spec::linestring_pos(sp(p), &pts[..len]);
+    assert!(pos_eq(ls.coordinate_position(&p), want));
+    assert!(ls.intersects(&p) == (want != spec::Pos::Outside));
+    kani::cover!(want == spec::Pos::OnBoundary, "end point");
+}
+k_harness!(c02_k_linestring_pos_2, body_linestring_pos(2, false));
+k_harness!(c02_k_linestring_pos_3, body_linestring_pos(3, false));
+
+#[cfg(kani)]
+fn body_polygon_pos(n: usize) {
+    let mut ring = lat_ring_i16(n, LAT);
+    let f = ring.0[0]; ring.0.push(f);
+    let p = lat_coord_i16(LAT);
+    let (pts, len) = to_pts(&ring);
+    let want = spec::ring_pos(sp(p), &pts[..len]);
+    let poly = Polygon::new(ring, Vec::new());
+    assert!(pos_eq(poly.coordinate_position(&p), want));
+    assert!(poly.contains(&p) == (want == spec::Pos::Inside));
+    assert!(poly.intersects(&p) == (want != spec::Pos::Outside));
+}
+k_harness!(c02_k_polygon_pos_3, body_polygon_pos(3));
+
+/// MultiPolygon of two unit squares touching at one vertex, at a symbolic integer offset.
+/// `.main`: every lattice point EXCEPT the shared vertex; `.finding`: the shared vertex (known finding D8).
+#[cfg(kani)]
+fn two_touching_squares(dx: i16, dy: i16) -> (MultiPolygon<i16>, Coord<i16>) {
+    let c = |x: i16, y: i16| Coord { x: x + dx, y: y + dy };
+    let mut r1 = Vec::with_capacity(8); r1.push(c(0, 0)); r1.push(c(2, 0)); r1.push(c(2, 2)); r1.push(c(0, 2)); r1.push(c(0, 0));
+    let mut r2 = Vec::with_capacity(8); r2.push(c(2, 2)); r2.push(c(4, 2)); r2.push(c(4, 4)); r2.push(c(2, 4)); r2.push(c(2, 2));
+    let mut v = Vec::with_capacity(2);
+    v.push(Polygon::new(LineString(r1), Vec::new()));
+    v.push(Polygon::new(LineString(r2), Vec::new()));
+    (MultiPolygon(v), c(2, 2))
+}
+
+// (a `.main` harness over all other query points does not finish symbolic execution in 600 s: not registered)
+#[cfg(kani)]
+#[kani::proof]
+#[kani::unwind(8)]
+fn c02_k_multipolygon_pos_finding_shared_vertex() {
+    let (mp, shared) = two_touching_squares(0, 0);
+    // the shared vertex is a boundary point of the union
+    assert!(mp.coordinate_position(&shared) == CoordPos::OnBoundary);
+}
+
+/// two 2-coordinate line strings [a,b] and [b,c].  `.main`: every query point except the shared end point b;
+/// `.finding`: b itself (mod-2 rule: interior of the union) -- known finding D4.
+#[cfg(kani)]
+fn two_linestrings(a: Coord<i16>, b: Coord<i16>, c: Coord<i16>) -> MultiLineString<i16> {
+    let mut v = Vec::with_capacity(2);
+    let mut l1 = Vec::with_capacity(4); l1.push(a); l1.push(b);
+    let mut l2 = Vec::with_capacity(4); l2.push(b); l2.push(c);
+    v.push(LineString(l1)); v.push(LineString(l2));
+    MultiLineString(v)
+}
+
+#[cfg(kani)]
+#[kani::proof]
+#[kani::unwind(8)]
+fn c02_k_multilinestring_pos_main() {
+    let (a, b, c, p) = (lat_coord_i16(LAT), lat_coord_i16(LAT), lat_coord_i16(LAT), lat_coord_i16(LAT));
+    kani::assume(a != b && b != c && a != c);
+    // simple linework: the two segments meet only at b
+    kani::assume(!spec::on_segment(sp(a), sp(b), sp(c)) && !spec::on_segment(sp(c), sp(a), sp(b)));
+    kani::assume(spec::orient(sp(a), sp(b), sp(c)) != 0 || !spec::on_segment(sp(b), sp(a), sp(c)) || true);
+    kani::assume(p != b);
+    let mls = two_linestrings(a, b, c);
+    let on = spec::on_segment(sp(p), sp(a), sp(b)) || spec::on_segment(sp(p), sp(b), sp(c));
+    let want = if !on { spec::Pos::Outside } else if p == a || p == c { spec::Pos::OnBoundary } else { spec::Pos::Inside };
+    // (collinear overlapping segments are excluded: not simple)
+    kani::assume(!(spec::orient(sp(a), sp(b), sp(c)) == 0 && (spec::on_segment(sp(a), sp(b), sp(c)) || spec::on_segment(sp(c), sp(a), sp(b)))));
+    assert!(pos_eq(mls.coordinate_position(&p), want));
+    assert!(mls.intersects(&p) == on);
+}
+
+#[cfg(kani)]
+#[kani::proof]
+#[kani::unwind(8)]
+fn c02_k_multilinestring_pos_finding_shared_endpoint() {
+    let (a, b, c) = (lat_coord_i16(LAT), lat_coord_i16(LAT), lat_coord_i16(LAT));
+    kani::assume(a != b && b != c && a != c);
+    kani::assume(!spec::on_segment(sp(a), sp(b), sp(c)) && !spec::on_segment(sp(c), sp(a), sp(b)));
+    let mls = two_linestrings(a, b, c);
+    assert!(mls.coordinate_position(&b) == CoordPos::Inside);
+    assert!(mls.contains(&Point(b)));
+}
